@@ -139,8 +139,12 @@ def run_history(ctx, text, ops, info, reqs_out):
         recs.append({"op": op, "res": res, "exc": exc_s, "before": before, "after": after, "snap": snap,
                      "tree_before": tree_before, "got": got})
     reqs_out.append((req, recs, text, ops))
-    # --------- oracle on the implementation
+    # --------- oracle on the implementation (a history is judged up to its first failure: after
+    # one, text and mapping have diverged and everything later is a consequence)
+    nfail = len(ctx.failures)
     for r in recs:
+        if len(ctx.failures) > nfail:
+            break
         op = r["op"]
         inp = {"doc": text, "ops": [list(map(str, o)) for o in ops], "at": list(map(str, op)), "before": r["before"]}
         tb = r["tree_before"]
@@ -184,7 +188,7 @@ def run_history(ctx, text, ops, info, reqs_out):
         if isinstance(ta, tuple) or ta is None:
             from .c05 import inherited_at
 
-            via = "inherit" if inherited_at(tb, names) else "other"
+            via = "inherit" if inherited_at(tb, names) else ("attrpath-family" if in_family else "other")
             ctx.fail({"clause": "text-unreadable", "via": via, **key}, {**inp, "after": r["after"]},
                      f"after {op!r} the text has a duplicate definition or no target: {r['after']!r}")
             continue
